@@ -117,6 +117,8 @@ def merge_result(exe, out):
             ev.update({"del": ilist(d["del"]), "mod": ilist(d["mod"])})
         elif tag == "jadd":
             ev["r"] = int(d["r"])
+        elif tag == "jfd":
+            ev.update({"r": int(d["r"]), "refused": int(d["refused"])})
         elif tag == "jsec":
             ev.update({"out": ilist(d["out"]), "mod": int(d["mod"])})
         else:
@@ -386,6 +388,12 @@ def rand_join_exe(rng):
             i = rng.choice(sorted(present))
             steps.append({"cmd": "jdel %d" % i, "ev": {"e": "JDel", "i": i}})
             present.discard(i)
+        elif c < 6 and present:
+            # a flow definition update with new attributes (octet rate, latency), applied or refused
+            i = rng.choice(sorted(present))
+            steps.append({"cmd": "jfd %d %d %d %d" % (i, rng.choice([0, 1000, 2500]) + rng.below(3) * 500,
+                                                      rng.choice([0, 27000, 54000]), rng.below(2)),
+                          "ev": {"e": "JFd", "i": i}})
         else:
             i = rng.choice(sorted(present))
             k = 1 + rng.below(nsec)
@@ -445,6 +453,11 @@ def route_beh_exe(b, rng, source):
             pred.append(None)
         elif op["op"] == "jdel":
             steps.append({"cmd": "jdel %d" % op["o"], "ev": {"e": "JDel", "i": op["o"]}})
+            pred.append(None)
+        elif op["op"] == "jfd":
+            n = len(steps)
+            steps.append({"cmd": "jfd %d %d %d %d" % (op["o"], 1000 * (n + 1), 27000 * (n % 3), op["f"]),
+                          "ev": {"e": "JFd", "i": op["o"]}})
             pred.append(None)
         elif op["op"] == "jsec":
             steps.append({"cmd": "jsec %d %d%s" % (op["o"], op["d"], sg),
@@ -862,14 +875,14 @@ def run(ctx):
 
     # ---- 1. model checking
     SCOV = ["AddOut", "DelOut", "SInput"]
-    JCOV = ["JAdd", "JDel", "JInput"]
+    JCOV = ["JAdd", "JDel", "JFd", "JInput"]
     if quick:
         pos = [M("m3q", workers=4), M("m2q", coverage=MCOV),
                RT("s"), RT("j", coverage=JCOV)]
         beh = [M("e2", workers=2), M("simsmall", simulate=60, depth=300), M("simreal", simulate=50, depth=2500, heap="4g"),
                M("e2d"), RT("es", coverage=SCOV), RT("sims", simulate=150, depth=40), RT("simj", simulate=60, depth=40)]
         negm = ("neg_trim", "neg_nostuff", "neg_noptr")
-        negr = ("neg_first", "neg_nomask", "neg_joinfirst")
+        negr = ("neg_first", "neg_nomask", "neg_joinfirst", "neg_fdfail")
     else:
         pos = [M("m4", workers=4, timeout=1500, heap="5g"), M("m3r3", workers=4, timeout=1500, heap="5g"),
                M("m3", workers=4, coverage=MCOV, timeout=1500, heap="4g"), M("m3q", workers=2), M("m2q", coverage=MCOV),
@@ -880,7 +893,7 @@ def run(ctx):
               [M("e2", workers=2), M("e2d"),
                RT("es", coverage=SCOV), RT("sims", simulate=3000, depth=40), RT("simj", simulate=1000, depth=40)]
         negm = ("neg_nodisc", "neg_trim", "neg_nostuff", "neg_noptr", "neg_ptralways")
-        negr = ("neg_first", "neg_nomask", "neg_anybyte", "neg_stale", "neg_joinfirst")
+        negr = ("neg_first", "neg_nomask", "neg_anybyte", "neg_stale", "neg_joinfirst", "neg_fdfail")
     neg = [M(c) for c in negm] + [RT(c) for c in negr]
     # the exhaustive models run on the side; the behaviours are replayed as soon as they are there
     res = {}
